@@ -422,14 +422,21 @@ class Unit:
             for k, item in enumerate(lst):
                 anchor, t = item[0], item[1]
                 nth = item[2] if len(item) > 2 else None
-                cnt = text.count(anchor)
-                if cnt == 0 or (cnt != 1 and nth is None):
-                    raise ExtractError(f"{file}:{bline} {qual}: hint anchor {anchor!r} occurs {cnt} times")
-                pos = -1
-                for _ in range((nth or 0) + 1):
-                    pos = text.index(anchor, pos + 1)
-                if where == 'after':
-                    pos += len(anchor)
+                if anchor.startswith('re:'):
+                    ms = [m for m in re.finditer(anchor[3:], text) if mask[m.start()]]
+                    if len(ms) == 0 or (len(ms) != 1 and nth is None):
+                        raise ExtractError(f"{file}:{bline} {qual}: hint anchor {anchor!r} matches {len(ms)} times")
+                    mm = ms[nth or 0]
+                    pos = mm.start() if where == 'before' else mm.end()
+                else:
+                    cnt = text.count(anchor)
+                    if cnt == 0 or (cnt != 1 and nth is None):
+                        raise ExtractError(f"{file}:{bline} {qual}: hint anchor {anchor!r} occurs {cnt} times")
+                    pos = -1
+                    for _ in range((nth or 0) + 1):
+                        pos = text.index(anchor, pos + 1)
+                    if where == 'after':
+                        pos += len(anchor)
                 inserts.append((pos, '\n' + t.strip('\n') + '\n', ('clause', f"{qual}/hint_{where}{k}")))
         inserts.sort(key=lambda x: x[0])
         # stable for same pos: keep insertion order
